@@ -152,4 +152,52 @@ def rayToiAndNormalWithBallFixed (center : V3 K) (radius : K) (ray : Ray3 K) (so
     let normal := if nrm ≤ 0 then V3.zero else pos.sdiv nrm
     { toi := n, n := if inside then normal.neg else normal, fkind := 0, fidx := 0 })
 
+/-! ## `Triangle::circumcircle` and `Triangle::perimeter` (`src/shape/triangle.rs`) — modelled by C20 itself
+
+Tied bit for bit by the `trim2` / `trim3` cases of C20's own stream (the comparison is made inside the oracle of
+`C20/Driver.lean`); proved total in `C20/Theorems17.lean`. -/
+
+/-- `Triangle::circumcircle` (3-D).  `denom.is_zero()` is `== 0.0`; in the degenerate (collinear) case the centre of the
+longest side and half its length; `na::distance(&self.a, &center)` is the norm of the difference. -/
+def triCircumcircle3 (a b c : V3 K) : V3 K × K :=
+  let a' := a.sub c
+  let b' := b.sub c
+  let na := a'.normSq
+  let nb := b'.normSq
+  let dab := a'.dot b'
+  let denom := two * (na * nb - dab * dab)
+  if neq denom 0 then
+    let cc := a.sub b
+    let nc := cc.normSq
+    if na ≤ nc ∧ nb ≤ nc then (a.center b, Num.sqrt nc / two)
+    else if nb ≤ na ∧ nc ≤ na then (a.center c, Num.sqrt na / two)
+    else (b.center c, Num.sqrt nb / two)
+  else
+    let k := (b'.smul na).sub (a'.smul nb)
+    let center := c.add (((a'.smul (k.dot b')).sub (b'.smul (k.dot a'))).sdiv denom)
+    (center, (center.sub a).norm)
+
+/-- `Triangle::circumcircle` (2-D): the same text. -/
+def triCircumcircle2 (a b c : V2 K) : V2 K × K :=
+  let a' := a.sub c
+  let b' := b.sub c
+  let na := a'.normSq
+  let nb := b'.normSq
+  let dab := a'.dot b'
+  let denom := two * (na * nb - dab * dab)
+  if neq denom 0 then
+    let cc := a.sub b
+    let nc := cc.normSq
+    if na ≤ nc ∧ nb ≤ nc then (a.center b, Num.sqrt nc / two)
+    else if nb ≤ na ∧ nc ≤ na then (a.center c, Num.sqrt na / two)
+    else (b.center c, Num.sqrt nb / two)
+  else
+    let k := (b'.smul na).sub (a'.smul nb)
+    let center := c.add (((a'.smul (k.dot b')).sub (b'.smul (k.dot a'))).sdiv denom)
+    (center, (center.sub a).norm)
+
+/-- `Triangle::perimeter`: `distance(a, b) + distance(b, c) + distance(c, a)` -/
+def triPerimeter3 (a b c : V3 K) : K := (b.sub a).norm + (c.sub b).norm + (a.sub c).norm
+def triPerimeter2 (a b c : V2 K) : K := (b.sub a).norm + (c.sub b).norm + (a.sub c).norm
+
 end Model
